@@ -53,5 +53,22 @@ pub fn clear_spill_of_overwritten_anchor(ws: &mut Worksheet, row: i32, column: i
 //@end
 }
 
+
+// ---- what stops a dynamic array from spilling: any occupied cell of the result block that is not this formula's own spill ----
+#[verifier::external_body] pub struct Error { _o: u8 }
+//@type base/src/types.rs FormulaValue
+//@type base/src/types.rs SpillValue
+//@type base/src/types.rs ArrayKind
+//@type base/src/types.rs Cell
+/// C31 ("spills never overwrite user content", "spill ranges do not overlap"): the per-cell test of set_cells_with_result answers "blocked" for every
+/// cell except an empty one and a spill cell whose anchor is THIS formula's cell
+pub fn spill_blocked_by(cell: &Cell, row: i32, column: i32) -> (r: bool)
+    ensures
+        r == !(cell is EmptyCell || (cell matches Cell::SpillCell { a, .. } && a == (row, column))),
+{
+    match cell
+//@arm base/src/model.rs Model::set_cells_with_result `|cell| match cell`
+//@end
+}
 } // verus!
 fn main() {}
